@@ -4,6 +4,7 @@ package storegen
 
 import (
 	"context"
+	"database/sql"
 	"errors"
 	"fmt"
 	"sort"
@@ -132,8 +133,10 @@ const (
 var optStr = []string{"", "error", "ignore", "skip"}
 
 const (
-	KindWrite   = 0
-	KindHorizon = 1
+	KindWrite      = 0
+	KindHorizon    = 1 // horizon read on the datastore
+	KindHorizonCmd = 2 // horizon read through the ReadChanges command, following continuation tokens
+	KindBackdate   = 3 // sqlite only: make every changelog row written so far two minutes older
 )
 
 // Op is one step of a history.
@@ -154,6 +157,10 @@ type Op struct {
 	Type    string `json:"ty,omitempty"`
 	SleepMs int    `json:"sl,omitempty"` // sleep before this op (real clock)
 	HMs     int    `json:"hms,omitempty"`
+	// horizon read through the command
+	PS   int  `json:"ps,omitempty"`   // page size
+	Poll bool `json:"poll,omitempty"` // continue from the token the previous command read of this backend ended with
+	Real bool `json:"real,omitempty"` // sqlite only, after KindBackdate: the command's real one-minute horizon, no scaling
 }
 
 // ---- observations ------------------------------------------------------------------------
@@ -629,6 +636,7 @@ func ExecWrite(b *Backend, op *Op, r *rec.Rand, full bool, probs *[]Problem) Obs
 type OpTime struct {
 	Tick       int
 	Start, End time.Time
+	Backdated  bool // sqlite rows of this op were made two minutes older
 }
 
 // ExecHorizon runs a horizon read (logical: entries with tick + H <= Now are old enough) on one
@@ -669,6 +677,119 @@ func ExecHorizon(b *Backend, op *Op, times []OpTime, probs *[]Problem) Obs {
 		}
 	}
 	return o
+}
+
+// scaledBackend sits between the ReadChanges command and the datastore: one minute of the
+// command's horizon (it only takes whole minutes) becomes PerMinute of real time, so that a
+// non-zero horizon can be exercised through the command without waiting for minutes.  Whether
+// the command passes its horizon at all - on every request - is what is being observed.
+type scaledBackend struct {
+	inner     storage.ChangelogBackend
+	PerMinute time.Duration
+}
+
+func (s scaledBackend) ReadChanges(ctx context.Context, store string, filter storage.ReadChangesFilter, options storage.ReadChangesOptions) ([]*openfgav1.TupleChange, string, error) {
+	filter.HorizonOffset = time.Duration(int64(filter.HorizonOffset) / int64(time.Minute) * int64(s.PerMinute))
+	return s.inner.ReadChanges(ctx, store, filter, options)
+}
+
+// TokenState is where a token-following reader of one backend stopped.
+type TokenState struct {
+	Token string
+	Type  string
+}
+
+// ExecHorizonCmd reads the changelog through commands.ReadChangesQuery configured with a
+// one-minute horizon (scaled to op.HMs milliseconds, or real with op.Real), page size op.PS,
+// following continuation tokens until a response carries no changes; with op.Poll it starts
+// from the token the previous such read ended with.
+func ExecHorizonCmd(b *Backend, op *Op, times []OpTime, ts *TokenState, probs *[]Problem) Obs {
+	if op.Real && b.Name != "sqlite" {
+		return Obs{}
+	}
+	o := Obs{Present: true}
+	ctx := context.Background()
+	var ser encoder.ContinuationTokenSerializer = encoder.NewStringContinuationTokenSerializer()
+	if b.Name == "sqlite" {
+		ser = sqlcommon.NewSQLContinuationTokenSerializer()
+	}
+	var backend storage.ChangelogBackend = b.DS
+	h := time.Minute
+	if !op.Real {
+		h = time.Duration(op.HMs) * time.Millisecond
+		backend = scaledBackend{inner: b.DS, PerMinute: h}
+	}
+	q := commands.NewReadChangesQuery(backend,
+		commands.WithReadChangeQueryHorizonOffset(1),
+		commands.WithContinuationTokenSerializer(ser))
+	token := ""
+	if op.Poll {
+		if ts.Type != op.Type {
+			*probs = append(*probs, Problem{"harness: poll with a token of another type"})
+		}
+		token = ts.Token
+	}
+	band := 60 * time.Millisecond
+	t0 := time.Now()
+	var out []ChangeObs
+	for guard := 0; ; guard++ {
+		if guard > 100000 {
+			o.Err, o.Msg = EOther, "ReadChanges command does not terminate"
+			break
+		}
+		resp, err := q.Execute(ctx, &openfgav1.ReadChangesRequest{
+			StoreId: b.Store, Type: op.Type, PageSize: wrapperspb.Int32(int32(op.PS)), ContinuationToken: token})
+		if err != nil {
+			o.Err, o.Msg = EOther, err.Error()
+			break
+		}
+		if len(resp.GetChanges()) == 0 {
+			break
+		}
+		if len(resp.GetChanges()) > op.PS {
+			*probs = append(*probs, Problem{b.Name + ": ReadChanges command returned more changes than the page size"})
+		}
+		for _, c := range resp.GetChanges() {
+			out = append(out, changeObs(c))
+		}
+		if resp.GetContinuationToken() == "" || resp.GetContinuationToken() == token {
+			break
+		}
+		token = resp.GetContinuationToken()
+	}
+	t1 := time.Now()
+	ts.Token, ts.Type = token, op.Type
+	for _, ot := range times {
+		if ot.Tick+op.H <= op.Now {
+			// must be returned: safely older than the horizon when the read started
+			age := t0.Sub(ot.End)
+			if ot.Backdated {
+				age += 2 * time.Minute
+			}
+			if age < h+band {
+				o.Incon = true
+			}
+		} else if t1.Sub(ot.Start) > h-band || (ot.Backdated && op.Real) {
+			o.Incon = true
+		}
+	}
+	o.Asc = out
+	return o
+}
+
+// Backdate makes every changelog row of the store two minutes older (sqlite, through a second
+// connection): old changes for a real one-minute horizon without waiting.
+func Backdate(b *Backend) error {
+	if b.Name != "sqlite" {
+		return nil
+	}
+	db, err := sql.Open("sqlite", sqliteURI(b.Path))
+	if err != nil {
+		return err
+	}
+	defer db.Close()
+	_, err = db.Exec("UPDATE changelog SET inserted_at = strftime('%Y-%m-%d %H:%M:%f', inserted_at, '-120 seconds') WHERE store = ?", b.Store)
+	return err
 }
 
 // ---- record encoding ---------------------------------------------------------------------
@@ -742,8 +863,13 @@ func ObsV(o Obs) rec.V {
 
 // OpV encodes one op with both observations.
 func OpV(op *Op, mem, sq Obs) rec.V {
-	if op.Kind == KindHorizon {
+	switch op.Kind {
+	case KindHorizon:
 		return rec.L(rec.I(1), rec.I(op.Now), rec.I(op.H), rec.S(op.Type), ObsV(mem), ObsV(sq))
+	case KindHorizonCmd:
+		return rec.L(rec.I(2), rec.I(op.Now), rec.I(op.H), rec.S(op.Type), rec.I(op.PS), rec.Bool(op.Poll), ObsV(mem), ObsV(sq))
+	case KindBackdate:
+		return rec.L(rec.I(3))
 	}
 	ds := make([]rec.V, len(op.Dels))
 	for i, d := range op.Dels {
